@@ -148,7 +148,10 @@ def poseidon():
 API_SOURCES = [("LinComb", "pysnark/runtime.py", "LinComb"), ("LinCombBool", "pysnark/boolean.py", "LinCombBool"),
                ("LinCombFxp", "pysnark/fixedpoint.py", "LinCombFxp"), ("array", "pysnark/array.py", None),
                ("pack", "pysnark/pack.py", None), ("branching", "pysnark/branching.py", None),
-               ("atexitmaybe", "pysnark/atexitmaybe.py", None)]
+               ("atexitmaybe", "pysnark/atexitmaybe.py", None), ("runtime_functions", "pysnark/runtime.py", ""),
+               ("snarkjsbackend", "pysnark/snarkjsbackend.py", None), ("zkif_backend", "pysnark/zkinterface/backend.py", None),
+               ("qaptools_backend", "pysnark/qaptools/backend.py", None), ("qapsplit", "pysnark/qaptools/qapsplit.py", None),
+               ("poseidon_hash", "pysnark/poseidon_hash.py", None), ("ggh_hash", "pysnark/ggh_hash.py", None)]
 
 
 def api_surface():
@@ -163,9 +166,11 @@ def api_surface():
             for n in body:
                 if isinstance(n, (ast.FunctionDef, ast.AsyncFunctionDef)):
                     names.append(prefix + n.name)
-                elif isinstance(n, ast.ClassDef) and cls is None:
+                elif isinstance(n, ast.ClassDef) and cls is None and prefix is not None:
                     walk(n.body, prefix + n.name + ".")
-        if cls is None:
+        if cls == "":
+            names.extend(n.name for n in t.body if isinstance(n, (ast.FunctionDef, ast.AsyncFunctionDef)))
+        elif cls is None:
             walk(t.body, "")
         else:
             found = [n for n in t.body if isinstance(n, ast.ClassDef) and n.name == cls]
@@ -207,7 +212,7 @@ def module_exports(modname, seen=None):
 def render_api(a):
     L = ["/-! GENERATED by harness/extract.py from /repo's working tree on every run. Do not edit. -/", "namespace Pysnark.Gen"]
     for key, rel, cls in API_SOURCES:
-        what = f"methods of class `{cls}`" if cls else "functions and methods"
+        what = f"methods of class `{cls}`" if cls else ("top-level functions" if cls == "" else "functions and methods")
         L.append(f"/-- `{rel}`: {what}, in source order -/\ndef api_{key} : List String := " + lean_list(a.get(key, []), lean_str))
     L.append("/-- for every module of `runtime.backends`: the names it offers (own functions, explicit imports, and the closure of "
              "`from … import *`), extracted statically -/\ndef backendExports : List (String × List String) := "
